@@ -112,9 +112,11 @@ def check_run(res, name, N, p0, maxSub, seed, reqs, meta, quad=None, config=None
     # (d) pf
     converged = lsf[m - 1][nc - 1] <= 0
     res.stat('converged' if converged else 'stopped_by_maxSubsets')
-    want = Fraction(p0) ** (m - 1) * Fraction(int(np.sum(lsf[m - 1] <= 0)), N) if converged else Fraction(p0) ** m
+    want = Fraction(p0) ** (m - 1) * Fraction(int(np.sum(lsf[m - 1] <= 0)), N)
     if not math.isclose(r['pf'], float(want), rel_tol=1e-12, abs_tol=1e-300) or not (0.0 <= r['pf'] <= 1.0):
-        fail(res, 'pf is not p0^(m-1) * failure fraction of the last level', case, [r['pf'], float(want)])
+        exhausted = (not converged) and math.isclose(r['pf'], float(Fraction(p0) ** m), rel_tol=1e-12)
+        fail(res, 'pf is not p0^(m-1) * failure fraction of the last level', case, [r['pf'], float(want)],
+             sig=('C13:pf:maxSubsets-exhausted:last-level-booked-as-p0' if exhausted else None))
     # ---- trace validation of the level bookkeeping against the Lean model (order-preserving integer image of g)
     allv = sorted(set(r['g0']) | {v for ch in r['chains'] for v in ch} | {0.0})
     z = allv.index(0.0)
